@@ -381,6 +381,12 @@ func (t *Transformer) ReverseTranslate(v reflect.Value) (reflect.Value, error) {
 		mangledfieldOffset := 0
 		unmangledLayerVals := make([]FieldValueTuple, len(t.mState[manglerNum]))
 		for srcFieldIdx, srcFieldstate := range t.mState[manglerNum] {
+			if srcFieldstate.out == nil && srcFieldstate.in.Name == "" {
+				// TranslateType skipped this field (unexported): there
+				// is nothing to unmangle, and it is skipped again when
+				// the struct is reassembled below.
+				continue
+			}
 			// slice down to just the mangled fields we're
 			// interested in for this unmangled field.
 			fvtuples := layerMangledVal[mangledfieldOffset : mangledfieldOffset+len(srcFieldstate.out)]
